@@ -223,14 +223,18 @@ def run(ctx):
         if i < 2:
             ctx.sample({"mutation": how, "string": U.show(s)})
 
-    bad = ctx.coq_check(IMPORTS, pterms, tag="c15print")
+    bad = ctx.coq_check(IMPORTS, pterms, tag="c15print", shard=100)
     for ix in bad:
         kind, is_dir, fields, s = pinfo[ix]
         ctx.mismatch("model-printer-vs-to_string:" + kind, "Model to_string and %s%s.to_string() differ" % ("dir-" if is_dir else "", kind),
                      case={"kind": kind, "dir": is_dir, "fields": U.jcase(fields)}, observed=U.show(s),
                      correspondence="to_string-vs-model-printer")
     ctx.trace(len(pterms) - len(bad))
-    bad = ctx.coq_check(IMPORTS, fterms, tag="c15parse")
+    # the few cases with numerals of thousands of digits cost seconds each: one file per case, run in parallel
+    heavy = [i for i, (_, s, _, _) in enumerate(finfo) if len(s) > 1500]
+    light = [i for i in range(len(fterms)) if len(finfo[i][1]) <= 1500]
+    bad = [light[j] for j in ctx.coq_check(IMPORTS, [fterms[i] for i in light], tag="c15parse", shard=100)]
+    bad += [heavy[j] for j in ctx.coq_check(IMPORTS, [fterms[i] for i in heavy], tag="c15parsebig", shard=1)]
     for ix in bad:
         how, s, di, o = finfo[ix]
         ctx.mismatch("model-parser-vs-from_string", "Model from_string and uri.from_string differ on %s (deep_immutable=%s, %s)" % (U.show(s), di, how),
@@ -277,7 +281,7 @@ def base32_part(ctx):
             except Exception as e:      # a2b must decode whatever its own precondition admits
                 ctx.oracle_fail("base32-a2b-raises-after-precondition", "a2b(%r) raises %s although could_be_base32_encoded" % (t, type(e).__name__),
                                 case={"string": t.hex()})
-    bad = ctx.coq_check(IMPORTS, terms, tag="c15b32")
+    bad = ctx.coq_check(IMPORTS, terms, tag="c15b32", shard=100)
     for ix in bad:
         fn, x = info[ix]
         ctx.mismatch("model-base32:" + fn, "Model %s and base32.%s differ on %r" % (fn, fn, x), case={"fn": fn, "input": x.hex()},
